@@ -60,6 +60,10 @@ def bx_parts():
     k = d(); a, b = M(d(), k), M(d(), k); ok = eq(rows(stack(a, b), 0, a.shape[0]), a)
     k = d(); a, b = M(k, d()), M(k, d()); return ok and eq(cols(concat(a, b), 0, a.shape[1]), a)
 @ax
+def bx_parts2():
+    k = d(); a, b = M(d(), k), M(d(), k); ok = eq(rows(stack(a, b), a.shape[0], a.shape[0] + b.shape[0]), b)
+    k = d(); a, b = M(k, d()), M(k, d()); return ok and eq(cols(concat(a, b), a.shape[1], a.shape[1] + b.shape[1]), b)
+@ax
 def bx_add_dims(): return True
 @ax
 def bx_add_zero():
